@@ -45,12 +45,15 @@ pub open spec fn FQ(o: int) -> int {
 // generate_origins() by the Kani closed-term harness K1 (complete: no inputs).
 pub open spec fn origins_ok(v: Seq<Origin>) -> bool {
     &&& v.len() == 12
-    &&& forall|i: int| 0 <= i < 12 ==> (#[trigger] v[i]).first_quintant == FQ(i) && v[i].id == i
+    &&& forall|i: int| 0 <= i < 12 ==> (#[trigger] v[i]).first_quintant == FQ(i) && v[i].id == i && v[i].orientation@.len() == 5
 }
+
+/// the (immutable, lazily built) face table as a specification-level constant
+pub uninterp spec fn get_origins_spec() -> Seq<Origin>;
 
 #[verifier::external_body]
 pub fn get_origins() -> (r: &'static Vec<Origin>)
-    ensures origins_ok(r@),
+    ensures origins_ok(r@), r@ == get_origins_spec(),
 { unimplemented!() }
 
 } // verus!
